@@ -124,6 +124,9 @@ def judge(ctx, ast, sp, T, vi, v):
         cands.append(('from_data', x1, None))
     except Exception:  # noqa
         pass
+    if vi == 0:
+        for x in ext_natives(ast):
+            cands.append(('native', x, None))
     for how, x, img in cands:
         res['evals'] += 1
         res['transitions'] += 1
@@ -146,7 +149,7 @@ def judge(ctx, ast, sp, T, vi, v):
             res['nontrivial'].add(f"{root}|{'+'.join(sorted(names))[:60]}")
         problem = refmodel.match(img, y, check_set=False) if img is not None else (None if same(x, y) else 'differs')
         if problem:
-            ov = c05.union_overlap(pane, ast, x)
+            ov = c05.union_overlap(pane, ast, x) or vol_overlap(pane, ast, x)
             core.add_violation(res, _sig('not_a_fixed_point', ast, root, ov),
                                f"{desc} returned {core.srepr(y, 80)} ({type(y).__name__}): {problem}", cell, cost)
             continue
@@ -162,6 +165,66 @@ def judge(ctx, ast, sp, T, vi, v):
                                f"{desc} -> {core.srepr(y, 60)} but convert of that -> {core.srepr(z, 60)}", cell, cost)
 
 
+def _vol_natives(leaf):
+    """ValueOrList values built through the class's own constructors (not through a conversion)."""
+    from pane.types import ValueOrList
+    table = {
+        'vol_int': [('val', 5), ('list', [1, 2]), ('list', [])],
+        'vol_str': [('val', 'a'), ('list', ['a', 'b'])],
+        'vol_tuple': [('val', (1, 2)), ('list', [(1, 2), (3, 4)])],
+        'vol_list': [('val', [1, 2]), ('list', [[1], [2, 3]]), ('val', []), ('list', []), ('list', [[]])],
+    }
+    return [ValueOrList.from_val(x) if k == 'val' else ValueOrList.from_list(x) for k, x in table.get(leaf, [])]
+
+
+def vol_overlap(pane, ast, x) -> bool:
+    """ValueOrList[T] is the untagged union T | List[T]: a LIST value whose serialised form T itself accepts as one value reads
+    back as that single value (ValueOrList[List[int]].from_list([]) -> [] -> from_val([])) - the documented untagged ambiguity."""
+    import typing
+    params = {'vol_int': int, 'vol_str': str, 'vol_tuple': typing.Tuple[int, int], 'vol_list': typing.List[int]}
+    leaf = next((l for l in e1.leaves_of(ast) if l in params), None)
+    if leaf is None:
+        return False
+
+    def find(v, depth=0):
+        if type(v).__name__ == 'ValueOrList':
+            yield v
+        elif depth < 3 and isinstance(v, (list, tuple)):
+            for e in v:
+                yield from find(e, depth + 1)
+        elif depth < 3 and isinstance(v, dict):
+            for e in v.values():
+                yield from find(e, depth + 1)
+    for vol in find(x):
+        if not vol._is_val:
+            try:
+                pane.from_data(pane.into_data(vol, grammar.build(leaf)), params[leaf])
+                return True
+            except Exception:  # noqa
+                pass
+    return False
+
+
+def ext_natives(ast):
+    """Natively built typed values for the helper types the reference model does not cover, alone and one level inside the
+    containers of expressions()."""
+    if isinstance(ast, str):
+        return _vol_natives(ast)
+    head = ast[0]
+    if head in ('list', 'tuplevar', 'optional') and isinstance(ast[1], str):
+        inner = _vol_natives(ast[1])
+        return [[x] for x in inner] if head == 'list' else [(x, x) for x in inner] if head == 'tuplevar' else inner
+    if head == 'dict' and ast[1] == 'str' and isinstance(ast[2], str):
+        return [{'k': x} for x in _vol_natives(ast[2])]
+    if head == 'struct' and isinstance(ast[1][1], str):
+        return [{ast[1][0]: x} for x in _vol_natives(ast[1][1])]
+    if head == 'union' and isinstance(ast[1], str):
+        return _vol_natives(ast[1])
+    if head == 'tuple' and len(ast) == 3 and ast[1] == 'int' and isinstance(ast[2], str):
+        return [(1, x) for x in _vol_natives(ast[2])]
+    return []
+
+
 def _sig(kind, ast, root, ov):
     tr = _type_root(ast)
     if tr or ov:
@@ -173,7 +236,7 @@ def _type_root(ast):
     lv = e1.leaves_of(ast)
     if lv & {'range_int', 'range_float', 'vol_range'}:
         return 'pane.types.Range'
-    if lv & {'vol_int', 'vol_str'}:
+    if lv & {'vol_int', 'vol_str', 'vol_tuple', 'vol_list'}:
         return 'pane.types.ValueOrList'
     return None
 
